@@ -32,13 +32,16 @@ use crate::{
 };
 
 /// Shard assignment used by `Scripted::distribute` (set before each run; runs are sequential).
-static ASSIGN: Mutex<Vec<usize>> = Mutex::new(Vec::new());
+thread_local! {
+    /// per worker thread: `block_on` polls the root future (and hence `distribute`) on the calling thread
+    static ASSIGN: std::cell::RefCell<Vec<usize>> = const { std::cell::RefCell::new(Vec::new()) };
+}
 
 pub struct Scripted;
 
 impl Distribute for Scripted {
     fn distribute<const SHARDS: usize, A>(input: Vec<A>) -> [Vec<A>; SHARDS] {
-        let assign = ASSIGN.lock().unwrap_or_else(|e| e.into_inner()).clone();
+        let assign = ASSIGN.with(|a| a.borrow().clone());
         let mut r: [Vec<A>; SHARDS] = std::array::from_fn(|_| Vec::new());
         for (i, share) in input.into_iter().enumerate() {
             r[assign[i] % SHARDS].push(share);
@@ -305,7 +308,7 @@ pub fn exec(req: &str) -> String {
             let assign: Vec<usize> = if rnd { vec![] } else { parse_nat_list(t[5]) };
             let records = parse_records(t[6]);
             assert!(rnd || assign.len() == records.len(), "harness: one shard index per record");
-            *ASSIGN.lock().unwrap_or_else(|e| e.into_inner()) = assign;
+            ASSIGN.with(|a| *a.borrow_mut() = assign);
             let inst = t[4].to_string();
             // PRSS / input-sharing randomness of the test world derives from the request line
             let seed = req.bytes().fold(0xcbf2_9ce4_8422_2325u64, |h, b| (h ^ u64::from(b)).wrapping_mul(0x0000_0100_0000_01B3));
@@ -451,7 +454,8 @@ pub fn gen_e2e(rng: &mut Rng, thorough: bool) -> Vec<String> {
                         let a = nat_list(&(0..n).map(|j| (bits >> j) & 1).collect::<Vec<_>>());
                         let r = rec_str(&SIX[..n]);
                         for (c, (mode, pad)) in combos.iter().enumerate() {
-                            if thorough || c == k % 4 {
+                            // quick: every third assignment (the rotation still visits all four combinations)
+                            if thorough || (c == k % 4 && (k % 3 == 0 || n == 4 && bits == (1 << n) - 1)) {
                                 out.push(format!("c01.e2e {mode} 2 {pad} prod {a} {r}"));
                             }
                         }
@@ -471,7 +475,10 @@ pub fn gen_e2e(rng: &mut Rng, thorough: bool) -> Vec<String> {
                                 _ => nat_list(&(0..n).map(|_| rng.usize_below(shards)).collect::<Vec<_>>()),
                             };
                             for (c, (mode, pad)) in combos.iter().enumerate() {
-                                if (thorough && (c + n) % 2 == 0) || (style == ((shards + n) % 4) as u64 && c == k % 4) {
+                                // quick: report counts 0, 1, 3, 6 only
+                                if (thorough && (c + n) % 2 == 0) || (style == ((shards + n) % 4) as u64 && c == k % 4 && matches!(n, 0 | 1 | 3 | 6)) {
+                                    // padded runs cost 5-20 s each with 3+ shards: quick keeps them for n = 3 only
+                                    let pad = if !thorough && shards >= 3 && *pad == 1 && n != 3 { 0 } else { *pad };
                                     out.push(format!("c01.e2e {mode} {shards} {pad} prod {a} {r}"));
                                 }
                             }
@@ -547,7 +554,8 @@ pub fn gen_e2e(rng: &mut Rng, thorough: bool) -> Vec<String> {
 
 #[test]
 fn verif_c01_e2e() {
-    run_suite("c01_e2e", gen_e2e, exec);
+    run_suite_par("c01_e2e",
+        4, gen_e2e, exec);
 }
 
 // ---- the same suites under the compact step table (props/C01.json "extra_builds": built with
